@@ -265,7 +265,8 @@ std::vector<int> pick_alphabet(Rng& r, int count) {
     const std::vector<int> sprime{3, 5, 7, 11, 13, 17, 19, 23, 29, 31, 37, 41};
     // primes > 41 use the chirp-z path; several share one internal power-of-two work size (43..61 -> 128, 2053/4093 -> 8192)
     const std::vector<int> bprime{43, 47, 53, 59, 61, 97, 101, 127, 211, 257, 1009, 1021, 2053, 2063, 4093};
-    const std::vector<int> comp{6, 10, 12, 15, 18, 20, 30, 36, 60, 100, 120, 125, 360, 500, 1000, 1023, 1025};
+    // composites; the last ones re-enter the cache for >= 4 distinct sub-plans while they are being built (645 = 3*5*43 -> 3, 5, 43, 128)
+    const std::vector<int> comp{6, 10, 12, 15, 18, 20, 30, 36, 60, 100, 120, 125, 360, 500, 1000, 1023, 1025, 129, 645, 1155, 1680, 2064, 2310};
     const std::vector<int> evenr{24, 86, 94, 120, 200, 202, 2000, 2018, 82, 22};
     std::vector<int> a;
     while (int(a.size()) < count) {
